@@ -66,7 +66,10 @@ type chainFamily struct {
 // the same address within ONE block - the account is then both in the snapshot diff layer's destruct set and in its account
 // data - followed by blocks that pay the address directly (payA) and through the forwarder contract (fwdA: CALL with value,
 // CallNewAccountGas when the callee does not exist; then BALANCE and EXTCODESIZE of it)
-var recreateLetters = []string{"", "setB", "clrA", "killA", "mk2B", "payA", "fwdA", "killA,payA", "killA,mk2B"}
+// "killA,rvA" / "killA,oogA": the contract self-destructs and a LATER transaction of the same block has the reverter CALL its
+// address with value and then REVERT / run out of gas (the resurrection by the value call is undone; the account must stay
+// destructed). clrA is not in this family (the genesis-allocation chains have it).
+var recreateLetters = []string{"", "setB", "killA", "mk2B", "payA", "fwdA", "killA,payA", "killA,mk2B", "killA,rvA", "killA,oogA"}
 
 func chainFamiliesFor(p *prestate) []chainFamily {
 	switch {
